@@ -1040,3 +1040,103 @@ func rulePackageTableInRegistry(c *Ctx) {
 	c.check(okc && len(keys) == 1 && keys[0] != "_LOADED" && stored, R, "packageTable:own-registry-slot", p.pos(fn.Pos()),
 		"one constant-key read on the registry, of a slot OpenPackage stores", "packageTable does not read the package table from a registry slot of its own (set by OpenPackage): looked up through _LOADED (package.loaded) or a global, the table is lost as soon as a script clears package.loaded or reuses the name — the hot-reload idiom `for k in pairs(package.loaded) do package.loaded[k] = nil end` breaks every later require")
 }
+
+// ruleLogHelpers: F128. C15 "math.log, log10 … return the IEEE result of their definition". The
+// assembly math.Log of amd64 does not normalise a subnormal argument (math.Log(5e-324) = -709.09, the
+// logarithm is -744.44). Wherever the library calls math.Log / math.Log10, the argument is either known
+// not to be subnormal on every way to the call, or it is the value scaled by a constant K >= 2^52 and
+// the result is corrected by exactly log(K).
+func ruleLogHelpers(c *Ctx) {
+	const R = "R15-mathmap"
+	p := c.P
+	const minNormal = 2.2250738585072014e-308
+	n := 0
+	for _, fn := range p.srcFuncs {
+		if fn.Pkg == nil || fn.Pkg.Pkg.Name() != "lua" || fn.Blocks == nil {
+			continue
+		}
+		g := (*PCFG)(nil)
+		local := 0
+		allInstrs(fn, func(in ssa.Instruction) {
+			pk, nm, ok := stdCall(in)
+			if !ok || pk != "math" || (nm != "Log" && nm != "Log10" && nm != "Log2" && nm != "Log1p") {
+				return
+			}
+			if g == nil {
+				g = p.G(fn)
+			}
+			if !g.Live(in) {
+				return
+			}
+			n++
+			local++
+			c.Sites++
+			c.touch(fn)
+			call := in.(*ssa.Call)
+			arg := stripConv(call.Call.Args[0])
+			key := fmt.Sprintf("%s:math.%s#%d:no-subnormal-argument", fn.Name(), nm, local)
+			// (a) scaled: arg = x * K, K >= 2^52, and every use of the result subtracts log(K)
+			if m, ok := arg.(*ssa.BinOp); ok && m.Op == token.MUL {
+				k, isK := constFloat(m.Y)
+				if !isK {
+					k, isK = constFloat(m.X)
+				}
+				if isK && k >= 4503599627370496.0 {
+					want := math.Log(k)
+					if nm == "Log10" {
+						want = math.Log10(k)
+					} else if nm == "Log2" {
+						want = math.Log2(k)
+					}
+					okc := len(*call.Referrers()) > 0
+					for _, r := range *call.Referrers() {
+						b, isB := r.(*ssa.BinOp)
+						if !isB || b.Op != token.SUB || b.X != ssa.Value(call) {
+							okc = false
+							continue
+						}
+						cf, isC := constFloat(b.Y)
+						if !isC || math.Abs(cf-want) > 1e-12*math.Abs(want) {
+							okc = false
+						}
+					}
+					c.check(okc, R, key, p.ipos(in), fmt.Sprintf("argument scaled by %g, result corrected by log(%g)", k, k),
+						fmt.Sprintf("%s scales the argument of math.%s by %g but does not subtract exactly the logarithm of that factor from the result", fn.Name(), nm, k))
+					return
+				}
+			}
+			// (b) direct: on every way to the call the argument is known not to be a positive subnormal
+			sat := func(cd Cond) bool {
+				b, ok := cd.V.(*ssa.BinOp)
+				if !ok {
+					return false
+				}
+				x, y, op := stripConv(b.X), stripConv(b.Y), b.Op
+				if !cd.Sense {
+					op = negate(op)
+				}
+				if _, isK := constFloat(x); isK {
+					x, y, op = y, x, flipOp(op)
+				}
+				k, isK := constFloat(y)
+				if !isK || x != arg {
+					return false
+				}
+				switch op {
+				case token.LEQ:
+					return k <= 0 // x <= 0
+				case token.GEQ:
+					return k >= minNormal // x >= smallest normal
+				case token.GTR:
+					return k >= minNormal
+				case token.LSS:
+					return k <= 0
+				}
+				return false
+			}
+			c.check(g.holdsOnAllPaths(in.Block(), sat, 0), R, key, p.ipos(in), "every way to the call has tested the argument non-positive or at least the smallest normal number",
+				fmt.Sprintf("%s hands math.%s an argument that can be subnormal: the amd64 implementation returns the logarithm of a different number for it (math.log(5e-324) = -709.09 instead of -744.44)", fn.Name(), nm))
+		})
+	}
+	c.check(n >= 2, R, "log-call-sites", "-", fmt.Sprintf("%d math.Log* call sites examined", n), "math.Log / math.Log10 call sites not found")
+}
